@@ -137,10 +137,12 @@ TrStir ==
   /\ LET st == [jit[Ev.g] EXCEPT !.pool = Stir(@)] IN ObsOk(st) /\ jit' = [jit EXCEPT ![Ev.g] = st]
 TrDebug == IsEvent("debug") /\ NoPanic /\ UNCHANGED jit
 TrDrop == IsEvent("drop") /\ UNCHANGED jit
+(* JitterRng::new() with the platform timer: a smoke run; only "did not panic" is specified *)
+TrStdNew == IsEvent("jit_std_new") /\ NoPanic /\ UNCHANGED jit
 
 Init == l = 1 /\ jit = <<>>
 Next == \/ TrReset \/ TrTimer \/ TrNew \/ TrSetRounds \/ TrNextU64 \/ TrNextU32 \/ TrFill \/ TrTimerStats
-        \/ TrTestTimer \/ TrClone \/ TrSetPool \/ TrStir \/ TrDebug \/ TrDrop
+        \/ TrTestTimer \/ TrClone \/ TrSetPool \/ TrStir \/ TrDebug \/ TrDrop \/ TrStdNew
 Spec == Init /\ [][Next]_vars
 Accepted ==
   IF TLCGet("stats").diameter - 1 = Len(Rec) THEN TRUE
